@@ -70,3 +70,18 @@ PROPS['C10'] = dict(
     level_text="Frame obligations from the real AST: every method that conditions the game (both prune_paths, prune_paths_reachability, Solver.prune_paths, prune_reachability, prune_states) is proved to modify only the `next_states` FIELD of solver nodes and NO list object that existed before the call (for all r < alloc at entry: content(r) unchanged) -- so the caller's transition lists, which the nodes alias, keep their content; the value-iteration and strategy methods are proved to modify no list and only the numeric node fields. Determinism of the cone is a static scan of the real AST.",
     level_note="Trusted: z3/cvc5, the encoder's heap model. A contract on StochasticGame.solve composing the per-method frames is pending; the composition and the repeated-solve sequences are covered by the bounded executable contracts (description compared before/after, all orders of pruned/unpruned solves).",
 )
+
+RDFS_LEMMAS = ['L_CountI_ext', 'L_CountP_ext', 'L_CountI_mem', 'L_CountT_mem', 'L_CountP_mem', 'L_FNI_len', 'L_FNI_count', 'L_distinct_le1', 'L_CountI_step', 'L_le1_distinct']
+A_VALUE = "value model: every list/dict in reverse_dfs.py is built locally and has a single access path when it is mutated, so nested references are encoded as nested values"
+A_CR = "reverse_dfs is verified for ANY predicate CR closed under the introduction rules of 'can reach a final state' (result inside CR) and its result together with the finals is proved closed under predecessors; that these two facts characterise the least fixed point is M_LFP (lean/Meta.lean)"
+PROPS['C07'] = dict(
+    functions=[q for q in _C if q.startswith('reverse_dfs.')],
+    lemmas=RDFS_LEMMAS,
+    assumptions=[A_LIST, A_TRANS, A_VALUE, A_SORT, A_CR],
+    trusted_base=['spec functions CountI/CountP/CountT/FilterNotIn of contracts/rdfs_spec.py', 'Lean 4 meta-lemma M_LFP (least fixed point = smallest closed set containing the finals)'],
+    undecided_clauses=[],
+    termination_unproved=['reverse_dfs_recursive: while pending_states (variant = (number of unvisited states, len(pending)) needs a cardinality argument that is not mechanised); recursion depth: the function no longer calls itself (checked syntactically)'],
+    static=[('no-recursion-in-backward-search', ST.no_self_call('reverse_dfs', 'reverse_dfs_recursive'))],
+    level_text="All six functions of reverse_dfs.py are verified from their real AST for graphs of any size: the reversed table has an entry for every state and lists u under v exactly once per transition u->v (stated with counting functions: CountI(rev[v], u) = CountT(tl[u], v) for all u, v); the work-list search returns a duplicate-free list that extends its accumulator, contains the start state, is closed under predecessors and sound w.r.t. any reachability predicate; reverse_dfs returns a strictly ascending list (each state once) of non-final states inside every predicate closed under the reachability rules, and result+finals is closed under predecessors -- with the Lean meta-lemma M_LFP this is exactly the set of non-final states that can reach a final state.",
+    level_note="Trusted: z3/cvc5, the encoder (value model for locally built lists/dicts), the assumed contract of list.sort (ascending permutation), Lean's kernel for M_LFP. Termination of the work-list loop is not proved (no recursion remains, so depth is not an issue). Inputs are assumed in range (targets and finals in 0..n-1), which check_game/check_next_states establish.",
+)
